@@ -5,6 +5,7 @@
 (* the specification checks the civil arithmetic given the offset.            *)
 (*  {"ev":"date","y":..,"m":..,"d":..,"res":time}                             *)
 (*  {"ev":"fields","t":time,"fields":[y,m,d,h,mi,s,wd],"ms":[neg,digits]}    *)
+(*  ("date" events whose result is not that midnight carry "gap": [p, p + 1 ms]) *)
 (*  {"ev":"usetz","t":time,"res":time}   {"ev":"badtz","err":bool}            *)
 (*  {"ev":"adddate","t":time,"dy":..,"dm":..,"dd":..,"res":time}              *)
 (*  {"ev":"now","t0":time,"res":time,"t1":time}  {"ev":"today", same}         *)
@@ -17,15 +18,24 @@ vars == <<i, bad>>
 
 Inst(t) == <<t[2], t[3]>>
 InstLE(a, b) == a[1] < b[1] \/ (a[1] = b[1] /\ a[2] <= b[2])
+OneMsBefore(a, b) == IF b[2] = 0 THEN a[1] = b[1] - 1 /\ a[2] = MsPerDay - 1 ELSE a[1] = b[1] /\ a[2] = b[2] - 1
 IsTime(t) == t[1] = "time" /\ t[3] >= 0 /\ t[3] < MsPerDay
 DatePart(f) == <<f[1], f[2], f[3]>>
 
 EventOK(e) ==
   CASE e.ev = "date" ->
          /\ IsTime(e.res)
-         /\ LET f == LocalFields(e.res) IN
-            /\ DatePart(f) = CivilFromDays(NormDays(e.y, e.m, e.d))
-            /\ f[4] = 0 /\ f[5] = 0 /\ f[6] = 0 /\ e.res[3] % 1000 = 0
+         \* local midnight of the normalised civil date; where the local clock jumps over that midnight (America/Sao_Paulo
+         \* 2018-11-04 00:00 -> 01:00, Australia/Lord_Howe 1981-03-01 00:00 -> 00:30) there is no such instant and nothing
+         \* is demanded.  The jump is witnessed by two instants one millisecond apart, logged with their own offsets.
+         /\ LET f == LocalFields(e.res)  target == NormDays(e.y, e.m, e.d) IN
+            \/ /\ DatePart(f) = CivilFromDays(target)
+               /\ f[4] = 0 /\ f[5] = 0 /\ f[6] = 0 /\ e.res[3] % 1000 = 0
+            \/ /\ Len(e.gap) = 2 /\ IsTime(e.gap[1]) /\ IsTime(e.gap[2]) /\ OneMsBefore(Inst(e.gap[1]), Inst(e.gap[2]))
+               /\ LET p == LocalFields(e.gap[1])  q == LocalFields(e.gap[2])
+                      dq == DaysFromCivil(q[1], q[2], q[3]) IN
+                  /\ DaysFromCivil(p[1], p[2], p[3]) < target
+                  /\ dq > target \/ (dq = target /\ (q[4] # 0 \/ q[5] # 0 \/ q[6] # 0))
     [] e.ev = "fields" ->
          /\ IsTime(e.t)
          /\ e.fields = LocalFields(e.t)
